@@ -4,7 +4,7 @@
    outputs the implementation produced); the runner returns the indices of operations whose model
    output differs. *)
 From Coq Require Import ZArith List Bool.
-From GCL Require Import Model.Grpc Run.LimitsRun Run.MeasureRun Run.StrategyRun Run.WaitersRun.
+From GCL Require Import Model.Registry Model.Grpc Run.LimitsRun Run.MeasureRun Run.StrategyRun Run.WaitersRun.
 Import ListNotations.
 Open Scope Z_scope.
 
@@ -26,6 +26,7 @@ Definition run_case (comp : Z) (cfg : list Z) (ops : list zop) : list (list Z) :
   else if comp =? 18 then run_gen meas_step (meas_init cfg) ops
   else if comp =? 41 then run_gen bare_step (bare_init cfg) ops
   else if comp =? 40 then run_gen lim_step (lim_init cfg) ops
+  else if comp =? 60 then run_gen reg_step_z reg_init ops
   else if comp =? 50 then run_gen waiters_step (waiters_init cfg) ops
   else [].
 
